@@ -458,26 +458,21 @@ impl RdfStore {
         if let Some(tx) = tx_id {
             let buffer = self.tx_buffer.read();
             if let Some(ops) = buffer.buffers.get(&tx) {
-                // Collect pending deletes
-                let pending_deletes: FxHashSet<&Triple> = ops
-                    .iter()
-                    .filter_map(|op| match op {
-                        PendingOp::Delete(t) => Some(t),
-                        _ => None,
-                    })
-                    .collect();
-
-                // Filter out pending deletes from committed results
-                if !pending_deletes.is_empty() {
-                    results.retain(|t| !pending_deletes.contains(t.as_ref()));
-                }
-
-                // Include pending inserts
+                // Replay the pending operations in order over the committed result, as
+                // commit_tx will: an insert of a triple that is already there adds nothing,
+                // and a delete also removes an earlier pending insert.
                 for op in ops {
-                    if let PendingOp::Insert(triple) = op
-                        && pattern.matches(triple)
-                    {
-                        results.push(Arc::new(triple.clone()));
+                    match op {
+                        PendingOp::Insert(triple) => {
+                            if pattern.matches(triple)
+                                && !results.iter().any(|t| t.as_ref() == triple)
+                            {
+                                results.push(Arc::new(triple.clone()));
+                            }
+                        }
+                        PendingOp::Delete(triple) => {
+                            results.retain(|t| t.as_ref() != triple);
+                        }
                     }
                 }
             }
